@@ -39,3 +39,16 @@ Example sched_stream_runs_get_mut :
      [0;0;0; 2;0; 2;0;1]; [11;0;0; 0;0; 0;0;0]; [9;0;1; 2;0; 1;2;2]; [9;0;0; 1;1; 0;0;0];
      [900; 0;0;0;0; 2;0]; [901; 0;0;0;0]]%N.
 Proof. vm_compute. reflexivity. Qed.
+
+(** try_unwrap: refused while the value is shared (the handle comes back: the read after it is accepted), granted once
+    the other owner is gone; between the grant and the move-out the thread is inside the call (its read, write and
+    ungrant labels are refused), the move-out destroys nothing twice and releases the block *)
+Example sched_stream_runs_try_unwrap :
+  run_sched [[199; 2; 0]; [200; 1;1;1; 4;1;0; 3;2;0; 6;0;0]; [201; 3;2;1; 4;1;0; 7;0;0]; [202; 8;0;0; 9;0;0];
+             [0;0;0]; [5;0;1]; [12;0;0]; [9;0;1000]; [9;0;0]; [1;0;0]; [6;1;0]; [9;1;1000]; [9;1;0]; [12;0;0]; [9;0;1000]; [9;0;0]; [9;0;0];
+             [1;0;0]; [2;0;0]; [3;0;0]; [4;0;0]; [1;0;0]]%N
+  = [[0;0;0; 2;0; 2;0;1]; [5;0;1; 0;0; 0;0;0]; [12;0;0; 0;0; 0;0;0]; [9;0;1; 2;0; 1;2;2]; [9;0;0; 1;1; 0;0;0]; [1;0;0; 0;0; 0;0;0];
+     [6;1;0; 0;0; 0;0;0]; [9;1;1; 2;0; 3;1;2]; [9;1;0; 1;1; 0;0;0]; [12;0;0; 0;0; 0;0;0]; [9;0;2; 2;0; 1;2;1]; [9;0;0; 1;0; 0;0;0];
+     [9;0;0; 1;0; 0;0;0]; [4;0;0; 0;0; 0;0;0];
+     [900; 1;1;0;0; 0;0; 0;0]; [901; 0;0;0;0]]%N.
+Proof. vm_compute. reflexivity. Qed.
